@@ -137,7 +137,9 @@ pub fn roundtrip(ctx: &mut Ctx) {
     let mut salts: Vec<String> = vec![];
     let mut ivs: Vec<Vec<u8>> = vec![];
     // after the random cases: a systematic sweep of the "large single write" corner — 5 writer kinds x {store,deflate,zstd} x {none,CTR,CBC}
-    let n_sys = 45;
+    // … then 20 cases whose CBC/CTR cipher text ends on or next to a multiple of 64 KiB (internal read-ahead and staging buffers
+    // have such sizes), and 8 cases at the extreme compression levels of each codec
+    let n_sys = 45 + 20 + 8;
     for case in 0..n + n_sys {
         let sys = if case >= n { Some(case - n) } else { None };
         let mut cfg = gen::gen_cfg(&mut rng, case % 9 == 0);
@@ -151,7 +153,20 @@ pub fn roundtrip(ctx: &mut Ctx) {
         // "large" slice of the quantifier: payloads of 40 KiB .. 2.5 MiB written in ONE write call (or a few), incompressible or
         // compressible — codec staging buffers (32 KiB) and chunk-size limits only come into play there
         let big = sys.is_some() || case % 11 == 7 || (ctx.thorough && case % 97 == 0);
-        if let Some(k) = sys {
+        if let Some(k) = sys.filter(|k| *k >= 65) {
+            let j = k - 65;
+            cfg.compression = [2u8, 2, 2, 1, 1, 4, 4, 2][j];
+            cfg.level = Some([22i64, 20, 1, 9, 0, 9, 0, 21][j]);
+            cfg.enc = if j % 2 == 0 { 0 } else { 1 };
+            cfg.mode = (j / 2 % 2) as u8;
+            cfg.kdf = gen::Kdf::Pbkdf2(Some(1));
+        } else if let Some(_k) = sys.filter(|k| *k >= 45) {
+            cfg.compression = 0;
+            cfg.level = None;
+            cfg.enc = 1 + (case % 2) as u8;
+            cfg.mode = if (case / 2) % 5 == 4 { 1 } else { 0 };
+            cfg.kdf = gen::Kdf::Pbkdf2(Some(1));
+        } else if let Some(k) = sys {
             cfg.compression = [0u8, 1, 2][(k / 5) % 3];
             cfg.level = None;
             let c = (k / 15) % 3;
@@ -169,8 +184,8 @@ pub fn roundtrip(ctx: &mut Ctx) {
             let mut e = gen::gen_entry(&mut rng, 0);
             e.kind = Kind::File;
             e.name = "big/payload.bin".into();
-            let n = match sys { Some(k) => [70_001usize, 1_200_003][(k / 5) % 2 ^ (k % 2)], None => [40_000usize, 70_000, 1_200_000, 2_500_000][rng.gen_range(0..4)] };
-            e.content = if sys.is_some() || rng.gen_bool(0.7) { crate::util::bytes(&mut rng, n) } else { (0..n).map(|i| (i % 251) as u8).collect() };
+            let n = match sys { Some(k) if k >= 65 => 50_000 + k, Some(k) if k >= 45 => [65_519usize, 65_520, 65_527, 65_535, 65_536, 65_537, 131_055, 131_056, 131_071, 131_072][(k - 45) % 10], Some(k) => [70_001usize, 1_200_003][(k / 5) % 2 ^ (k % 2)], None => [40_000usize, 70_000, 1_200_000, 2_500_000][rng.gen_range(0..4)] };
+            e.content = if sys.is_some_and(|k| k >= 65) { (0..n).map(|i| (i % 251) as u8 ^ (i / 977) as u8).collect() } else if sys.is_some() || rng.gen_bool(0.7) { crate::util::bytes(&mut rng, n) } else { (0..n).map(|i| (i % 251) as u8).collect() };
             e.writes = if sys.is_some() || rng.gen_bool(0.6) { vec![n] } else { vec![n / 3, 1, n / 2] };
             e.link = String::new();
             e.xattrs.clear();
